@@ -93,7 +93,7 @@ def pinnedArgSkeleton : List (String × String) := [
   ("Root.replaceArgVars", "8e6170986780"),
   ("Root.resolveField", "d8dcc1486960"),
   ("Root.resolveReflect", "15757bc1bc70"),
-  ("checkReflectArgs", "bebacba2a1e6")
+  ("checkReflectArgs", "3e548d39715f")
 ]
 
 theorem C04_arg_skeleton_pinned : Gen.argSkeleton = pinnedArgSkeleton := by decide
